@@ -269,7 +269,7 @@ def _trn_dir_trn(case):
         tx.write_text(trn, "".join(tx.trn_reference_line(u["items"], u["utt"], case["pad"]) + "\n" for u in case["corpus"]))
         opts = _fix_args(fix) + t2i_swap
         if case["unk"] is not None:
-            opts += ["--unk-symbol", case["unk"]]
+            opts += ["--unk-symbol=" + case["unk"]]
         if case["alts"]:
             opts += ["--alt-handler", "first"]
         opts += {"default": [], "skip": ["--skip-frame-times"], "feat": ["--feat-sizing"]}[case["shape"]]
@@ -338,7 +338,7 @@ def _sec(frame, fs):
 
 
 def _close_times(got, exp_frames, fs, extra=0.0):
-    tol = fs / 1000 * (1 + 1e-9) + extra
+    tol = fs / 1000 * (1 + 1e-9) + 1e-12 + extra
     return abs(got - _sec(exp_frames, fs)) <= tol
 
 
@@ -403,7 +403,7 @@ def _ctm_dir_ctm(case):
         tx.write_text(ctm, "".join(lines[i] for i in perm))
         opts = _fix_args(fix) + t2i_swap + ["--frame-shift-ms", repr(fs)]
         if case["unk"] is not None:
-            opts += ["--unk-symbol", case["unk"]]
+            opts += ["--unk-symbol=" + case["unk"]]
         if m["kind"] != "none":
             opts += ["--" + m["kind"], _map_file(d, m, m["kind"], "map_fwd.txt")]
         out = os.path.join(d, "tok")
@@ -423,7 +423,7 @@ def _ctm_dir_ctm(case):
         back = os.path.join(d, "out.ctm")
         bopts = _fix_args(fix) + i2t_swap + ["--frame-shift-ms", repr(fs)]
         if m["kind"] == "none":
-            bopts += ["--channel", m["channel"]]
+            bopts += ["--channel=" + m["channel"]]
         else:
             bopts += ["--" + m["back"], _map_file(d, m, m["back"], "map_back.txt")]
         _run("torch_token_data_dir_to_ctm", [out, vf, back] + bopts)
@@ -562,13 +562,13 @@ def _tg_dir_tg(case):
             select = "name"
         opts = _fix_args(fix) + t2i_swap + ["--frame-shift-ms", repr(fs), "--textgrid-suffix", case["tg_suffix"]]
         if select == "name":
-            opts += ["--tier-name", case["tier_name"]]
+            opts += ["--tier-name=" + case["tier_name"]]
         elif select == "idx":
             opts += ["--tier-idx", str(list(idxs)[0])]
         if case["unk"] is not None:
-            opts += ["--unk-symbol", case["unk"]]
+            opts += ["--unk-symbol=" + case["unk"]]
         if fill is not None:
-            opts += ["--fill-symbol", fill]
+            opts += ["--fill-symbol=" + fill]
         if case["decoy"]:
             tx.write_text(os.path.join(tg_in, fix["prefix"] + "notes.txt"), "not a TextGrid\n")
         _run("textgrids_to_torch_token_data_dir", [tg_in, vf, tok_dir] + opts, workers)
@@ -595,7 +595,7 @@ def _tg_dir_tg(case):
             _same_dirs(tok_dir, tok0, "TextGrids->dir with %d workers vs 0" % workers["n"])
         bopts = _fix_args(fix) + i2t_swap + ["--frame-shift-ms", repr(fs), "--textgrid-suffix", case["tg_suffix"], "--precision", str(p)]
         if case["out_tier_name"]:
-            bopts += ["--tier-name", case["out_tier_name"]]
+            bopts += ["--tier-name=" + case["out_tier_name"]]
         if case["length"] == "feat":
             os.makedirs(feat)
             for u in corpus:
